@@ -22,7 +22,7 @@ def shape_problems(r):
         elif isinstance(n, ast.Call) and isinstance(n.func, ast.Name) and len(n.args) == 2 \
                 and n.func.id in ("Select", "SelectMany") and isinstance(n.args[1], ast.Lambda):
             mark(n.args[1].body)
-        elif isinstance(n, ast.Call) and isinstance(n.func, ast.Name) and n.func.id == "Where" and n.args:
+        elif isinstance(n, ast.Call) and isinstance(n.func, ast.Name) and n.func.id in ("Where", "First") and n.args:
             mark(n.args[0])
 
     mark(r)
